@@ -6,19 +6,19 @@ import json
 CHECKS = {
  "C01": ("differential vs. reference interpreter over tape-decoded random programs (proptest), shrunk on the tape",
          "Random programs over the whole documented feature set (closures in loops, aliasing, shadowing, methods, destructuring, interpolation ...), stdout and success/failure class compared with an independent reference interpreter; 60k programs per quick run through the real binary, millions in-process in the thorough tier. Exploration: finds feature-interaction defects, cannot prove absence.", "4/C01"),
- "C02": ("generated no-crash search: exhaustive alias-shape x operation matrix, boundary-integer grid, multi-byte literals, hostile random programs (proptest)",
+ "C02": ("generated no-crash search: exhaustive alias-shape x operation matrix, callable x route matrix, boundary-integer grid, multi-byte literals, hostile random programs (proptest)",
          "Exit status must be 0 or 103 and stderr free of panic text for every generated program inside the documented resource bounds; the matrix part is exhaustive over its pool.", "4/C02"),
- "C03": ("fuzzing of the front end: exhaustive short strings over a 50-symbol alphabet, random text, token-level mutation and truncation of valid programs, invalid UTF-8; totality/format oracle",
+ "C03": ("fuzzing of the front end: exhaustive short strings over a 50-symbol alphabet, random text, token-level mutation and truncation of valid programs, invalid UTF-8; totality/format oracle; metamorphic pairs for slot text parsed after similar slots",
          "Every input is accepted or rejected cleanly (one located diagnostic, empty stdout, exit 103, line within bounds); in-process classification by the repository's own lexer/parser, confirmed through the binary.", "4/C03"),
  "C04": ("exhaustive small-scope enumeration of scope-operation programs + rename metamorphic relation + differential vs. reference interpreter",
          "All programs over a small alphabet of scope operations to a bound, random larger ones, and consistent renamings; reports how many cases distinguish dynamic scoping / by-value capture / shared frames from the truth.", "4/C04"),
- "C05": ("model-based history generation (alias / copy / mutate / observe) against a reference heap model",
+ "C05": ("model-based history generation (alias / copy / mutate / observe) against a reference heap model; building expressions evaluated repeatedly",
          "Exhaustive short histories over a few variables and containers plus random longer ones; every observation (print, ===, ==) must match the heap model; reports per wrong-semantics variant how many cases would expose it.", "4/C05"),
  "C06": ("exhaustive boundary grid + sweep of all small multipliers against partners at the limit + random pairs (64-bit, 32-bit magnitudes, random widths) against exact i128 arithmetic",
          "Every operator x boundary pair x plain/op-assign form, literals, ranges; the exact result or a diagnostic naming operands and operator. The grid is exhaustive over its values.", "4/C06"),
  "C07": ("exhaustive enumeration of control-flow nestings with jumps at every position + differential vs. reference interpreter",
          "All nestings of block / if / while / for / call to a depth bound with break / continue / return placed everywhere and traced; loop bodies that mutate the iterated container.", "4/C07"),
- "C08": ("round-trip print -> real parser -> compare trees; exhaustive operator sequences vs. tier table; evaluated flat chains of 3..64 operands against the left fold",
+ "C08": ("round-trip print -> real parser -> compare trees; exhaustive operator sequences vs. tier table; evaluated flat chains of 3..64 operands against the left fold; exhaustive operator x left-operand kind x spacing product",
          "All operator sequences up to length 3 (4 thorough) over the 16 binary operators, random deep trees with minimal / full / redundant parentheses; the parsed tree must equal the written tree.", "4/C08"),
  "C09": ("metamorphic: one program under random layouts must behave identically; directional newline-vs-; matrix",
          "Five layouts per program (terminators, continuation breaks, comments, odd whitespace, CR LF, digit separators, \\xHH) must give the same stdout, status, message and mapped position; a line break after each token kind continues iff documented.", "4/C09"),
@@ -32,15 +32,15 @@ CHECKS = {
          "Patterns of depth <= 2 and width <= 4 against sources of size 0..5 in declaration / assignment / for / parameter position; random pattern trees up to 40 wide with repeated keys against fitting and one-off sources; spread/collect inverse laws; f(xs.., g()) against its written-out form when g mutates xs.", "4/C13"),
  "C14": ("model-based call/this histories against a provenance model",
          "Short histories of defining, attaching, reading, moving and calling functions; arities x rest x spread; argument evaluation traces.", "4/C14"),
- "C15": ("generated string literals: decode oracle + interpolation == concatenation metamorphic relation",
+ "C15": ("generated string literals: decode oracle + interpolation == concatenation metamorphic relation, also after similar literals were evaluated",
          "Literal text over ASCII / escapes / multi-byte characters, 0..3 slots at every position, slot expressions with braces and nested literals; lexical errors at the offending character.", "4/C15"),
  "C16": ("exhaustive finite matrix: operator x kind x kind and context x kind against the table in the property, out-of-domain cells again over look-alike values",
          "Complete: every cell of the matrix is executed; in-domain cells check the value, others the diagnostic naming operator and both types.", "4/C16"),
- "C17": ("failing programs by construction (fault x slot x call wrapper) + random failing programs; shape predicates on stderr",
+ "C17": ("failing programs by construction (fault x slot x call wrapper) + random failing programs; shape predicates on stderr; metamorphic pairs: the diagnostic does not depend on which literals were evaluated before",
          "Every error class raised at every syntactic slot and at call depth 0..5 through named / anonymous / method / callback / builtin calls and direct recursion; stdout up to the failure, exit 103, one located line, innermost function, one trace line per active call.", "4/C17"),
  "C18": ("failing programs with known offending token under random layouts (also inside interpolation slots, composed from the reported chain); in-process comparison of every token / tree position with the printer's record",
          "Exact line:col for the documented error kinds and trace lines under tabs, CR, comments, multi-byte and multi-line text; every lexer token start and every syntax-tree position of random programs.", "4/C18"),
- "C19": ("repeated runs under varied environment must be byte-identical; print vs. independent renderer over construction histories",
+ "C19": ("repeated runs under varied environment must be byte-identical and equal to the reference run's stdout; print vs. independent renderer over construction histories",
          "Programs with many-key objects and multi-error situations run several times under different cwd / env / locale / path spelling / stdin / stdout; nested values built along different histories print canonically.", "4/C19"),
  "C20": ("exhaustive event sequences over names and scopes + every non-bindable expression in every binding position, vs. reference",
          "All short sequences of declare / redeclare / assign / read / destructure / fn / block events over a few names; `_` in every target position; redeclaration must cite the earlier position.", "4/C20"),
